@@ -1,7 +1,7 @@
 """c05 — scheduler property; see sched_common.py."""
 import sched_common
 
-DEP_FILES = ["SchedModel.v", "SchedLemmas.v", "SchedInv.v", "SchedInv2.v", "SchedProps.v", "SchedInv3.v", "SchedInv4.v", "SchedTheorems.v"]
+DEP_FILES = ["SchedModel.v", "SchedLemmas.v", "SchedInv.v", "SchedInv2.v", "SchedProps.v", "SchedInv3.v", "SchedInv4.v", "SchedTheorems.v", "SchedLive.v"]
 PID = "C05"
 
 
